@@ -122,11 +122,11 @@ CLAIMED = {
              "(C13_missing_is_null); (4) catalogue rows travel in the request's own log segment; (5) with the literal of "
              "Table::new repaired (seed \"column_name\") compaction of any table always iterates over every column the "
              "merged rows carry - the guarded run never stops at the F3 site (C13_compaction_carries_all); (6) a restart of "
-             "any reachable state returns: no catalogue-loading panic during WAL replay (C13_restart_total). On the faithful "
+             "any reachable state returns: no catalogue-loading panic during WAL replay (C13_restart_total); (7) SELECT name "
+             "FROM _meta_tables lists exactly the tables of the database other than itself, each once (C13_tables_listed). On the faithful "
              "model (5) is refuted by the F3 witness (seed \"column_names\"), replayed on the implementation on every run. Tied to the code by the history differential with column-set generators and the "
              "catalogue / SELECT * observers.",
-        note="Not closed (kept as Definition C13_tables_listed_statement in Props/C13.v): exactness of _meta_tables (checked by "
-             "the correspondence run only). Guarded run (stops at F1 / F3 sites). The order of tables within one event buffer is fixed in the "
+        note="All statements of the design are closed; SELECT * column order / expansion is covered by the correspondence run only. Guarded run (stops at F1 / F3 sites). The order of tables within one event buffer is fixed in the "
              "model (client tables, _meta_tables, catalogue tables).",
         technique="Coq invariant proof over operation histories (log-level catalogue invariant + replay induction) + "
                   "refutation witness + history correspondence",
